@@ -205,185 +205,249 @@ def ackFor (x : Node) (e : Ent) (n : Nat) (ok : Bool) : Option (Nat × Bool) :=
     | none => none
   else none
 
-def step (s : State) : Op → Option State
-  | .propose p c size =>
-    match s.nodes[p]? with
-    | some x =>
-      if x.up then
-        match c with
-        | .write .. =>
-          let e : Ent := { cmd := c, size := size, prop := p, ptag := lifeTag x.life, pseq := x.nextSeq + 1, uid := s.nextUid }
-          let x := { x with pending := x.pending ++ [(x.nextSeq + 1, s.nextUid)], nextSeq := x.nextSeq + 1 }
-          some { setNode s p x with inflight := s.inflight ++ [e], nextUid := s.nextUid + 1 }
-        | _ => none
-      else none
-    | none => none
-  | .giveUp p seq =>
-    match s.nodes[p]? with
-    | some x => some (setNode s p { x with pending := x.pending.filter (fun q => q.1 ≠ seq) })
-    | none => none
-  | .commit j q =>
-    match s.leader, s.inflight[j]? with
-    | some l, some e =>
-      -- q: the nodes that hold the entry durably (a node that died with it in its log keeps it);
-      -- the leader and a majority of them are up
-      if q.contains l && q.Nodup &&
-         majority s (q.filter (fun m => match s.nodes[m]? with | some x => x.up | none => false)) &&
-         (match s.nodes[l]? with | some x => x.up | none => false) &&
-         q.all (fun m => match s.nodes[m]? with | some x => x.last == s.clog.length | none => false) then
-        let idx := s.clog.length + 1
-        let s := advanceFiles s idx e.size
-        let nodes := s.nodes.mapIdx (fun m x =>
-          if q.contains m then
-            { x with last := idx, hsCommit := if m = l then idx else x.hsCommit }
-          else x)
-        some { s with nodes := nodes, clog := s.clog ++ [e], inflight := s.inflight.eraseIdx j }
+def doPropose (s : State) (p : Nat) (c : Cmd) (size : Nat) : Option State :=
+  match s.nodes[p]? with
+  | some x =>
+    if x.up then
+      match c with
+      | .write .. =>
+        let e : Ent := { cmd := c, size := size, prop := p, ptag := lifeTag x.life, pseq := x.nextSeq + 1, uid := s.nextUid }
+        let x := { x with pending := x.pending ++ [(x.nextSeq + 1, s.nextUid)], nextSeq := x.nextSeq + 1 }
+        some { setNode s p x with inflight := s.inflight ++ [e], nextUid := s.nextUid + 1 }
+      | _ => none
+    else none
+  | none => none
+
+def doGiveUp (s : State) (p : Nat) (seq : Nat) : Option State :=
+  match s.nodes[p]? with
+  | some x => some (setNode s p { x with pending := x.pending.filter (fun q => q.1 ≠ seq) })
+  | none => none
+
+def nodeUp (s : State) (m : Nat) : Bool := match s.nodes[m]? with | some x => x.up | none => false
+
+/-- q: the nodes that hold the entry durably (a node that died with it in its log keeps it); the
+leader and a majority of them are up, and each held the whole committed log before -/
+def commitOK (s : State) (l : Nat) (q : List Nat) : Bool :=
+  q.contains l && decide q.Nodup && majority s (q.filter (nodeUp s)) && nodeUp s l &&
+  q.all (fun m => match s.nodes[m]? with | some x => x.last == s.clog.length | none => false)
+
+def commitNodes (nodes : List Node) (q : List Nat) (l idx : Nat) : List Node :=
+  nodes.mapIdx (fun m x =>
+    if q.contains m then { x with last := idx, hsCommit := if m = l then idx else x.hsCommit } else x)
+
+def doCommit (s : State) (j : Nat) (q : List Nat) : Option State :=
+  match s.leader, s.inflight[j]? with
+  | some l, some e =>
+    if commitOK s l q then
+      let idx := s.clog.length + 1
+      let s := advanceFiles s idx e.size
+      some { s with nodes := commitNodes s.nodes q l idx, clog := s.clog ++ [e], inflight := s.inflight.eraseIdx j }
+    else none
+  | _, _ => none
+
+/-- the follower receives the entries it lacks and learns the commit index -/
+def syncNode (x : Node) (total : Nat) : Node := { x with last := total, hsCommit := total }
+
+/-- the leader no longer has what the follower needs: raft sends its snapshot, which carries no
+rows; the follower's state machine position jumps to the snapshot index -/
+def installNode (x : Node) (leaderSnap total : Nat) : Node :=
+  { x with holes := x.holes ++ [(x.last, leaderSnap)], last := total, snapIdx := leaderSnap,
+           hsCommit := total, pub := leaderSnap, applied := leaderSnap }
+
+def doSync (s : State) (n : Nat) : Option State :=
+  match s.leader with
+  | some l =>
+    match s.nodes[l]?, s.nodes[n]? with
+    | some lx, some x =>
+      if lx.up && x.up && lx.last == s.clog.length then
+        if x.last + 1 ≥ lx.first then some (setNode s n (syncNode x s.clog.length))
+        else some (setNode s n (installNode x lx.snapIdx s.clog.length))
       else none
     | _, _ => none
-  | .sync n =>
-    match s.leader with
-    | some l =>
-      match s.nodes[l]?, s.nodes[n]? with
-      | some lx, some x =>
-        if lx.up && x.up && lx.last == s.clog.length then
-          if x.last + 1 ≥ lx.first then
-            some (setNode s n { x with last := s.clog.length, hsCommit := s.clog.length })
-          else
-            -- the leader no longer has what n needs: raft sends its snapshot, which carries no rows
-            let x := { x with holes := x.holes ++ [(x.last, lx.snapIdx)], last := s.clog.length, snapIdx := lx.snapIdx,
-                              hsCommit := s.clog.length, pub := lx.snapIdx, applied := lx.snapIdx }
-            some (setNode s n x)
-        else none
-      | _, _ => none
-    | none => none
-  | .publish n =>
-    match s.nodes[n]? with
-    | some x => if x.up && x.pub ≤ x.hsCommit then some (setNode s n { x with pub := x.hsCommit }) else none
-    | none => none
-  | .apply n fail upd =>
-    match s.nodes[n]? with
-    | some x =>
-      if x.up && x.applied < x.pub then
-        let i := x.applied + 1
-        match entAt s.clog i with
-        | some e =>
-          let x := { x with applied := i }
-          let (x, s) : Node × State :=
-            match e.cmd with
-            | .write .. =>
-              let s := match ackFor x e n (!fail) with
-                | some a => { s with acked := s.acked ++ [a] }
-                | none => s
-              let x := { x with pending := if e.prop = n ∧ e.ptag = lifeTag x.life then x.pending.filter (fun q => q.1 ≠ e.pseq) else x.pending }
-              if fail then (x, s)
-              else ({ x with mem := x.mem ++ [i], hasSnp := true }, { s with ghostApplied := s.ghostApplied ++ [(n, i)] })
-            | .clear idx => ({ x with first := delBefore x s.bounds (clearIndex idx x.snapIdx) }, s)
-            | .noop => (x, s)
-          let x := if upd && x.flag && x.sc ≤ i then { x with sc := i } else x
-          some (setNode s n x)
-        | none => none
-      else none
-    | none => none
-  | .flushBegin n sh =>
-    match s.nodes[n]? with
-    | some x =>
-      if x.up && !(x.imm.any (·.1 == sh)) then
-        let moved := x.mem.filter (fun i => shardOf s.clog i == sh)
-        let x := { x with imm := x.imm ++ [(sh, x.hasSnp, moved)], mem := x.mem.filter (fun i => shardOf s.clog i != sh), gI := x.applied }
-        -- `if s.SnapShotter != nil { RaftFlag = 0 }`
-        let x := if x.hasSnp then { x with flag := false } else x
-        -- code as it was: signal (and flag back to 1) right after the table switch
-        let x := if x.hasSnp && !snapSignalAfterCommit then { x with snapIdx := snapTo x x.sc, flag := true } else x
-        some (setNode s n x)
-      else none
-    | none => none
-  | .flushEnd n sh =>
-    match s.nodes[n]? with
-    | some x =>
-      match x.imm.find? (·.1 == sh) with
-      | some t =>
-        if x.up then
-          let x := { x with files := x.files ++ t.2.2, imm := x.imm.filter (·.1 != sh), gF := x.gI }
-          -- signal after the commit, through the SnapShotter seen at the start (or the one the shard has by now)
-          let sig := if snpCapturedOnce then t.2.1 else x.hasSnp
-          let x := if sig && snapSignalAfterCommit then { x with snapIdx := snapTo x x.sc, flag := true } else x
-          some (setNode s n x)
-        else none
+  | none => none
+
+def doPublish (s : State) (n : Nat) : Option State :=
+  match s.nodes[n]? with
+  | some x => if x.up && x.pub ≤ x.hsCommit then some (setNode s n { x with pub := x.hsCommit }) else none
+  | none => none
+
+structure ApplyRes where
+  node : Node
+  ack : Option (Nat × Bool)     -- answer for a waiting writer
+  applied : Bool                -- the rows went to the memtable
+
+/-- dealCommitData for entry `e` (index `i`) on node `n` -/
+def applyEnt (bounds : List Nat) (x : Node) (e : Ent) (n i : Nat) (fail : Bool) : ApplyRes :=
+  match e.cmd with
+  | .write .. =>
+    let ack := ackFor x e n (!fail)
+    let x := { x with pending := if e.prop = n ∧ e.ptag = lifeTag x.life then x.pending.filter (fun q => q.1 ≠ e.pseq) else x.pending }
+    if fail then ⟨x, ack, false⟩
+    else ⟨{ x with mem := x.mem ++ [i], hasSnp := true }, ack, true⟩
+  | .clear idx => ⟨{ x with first := delBefore x bounds (clearIndex idx x.snapIdx) }, none, false⟩
+  | .noop => ⟨x, none, false⟩
+
+/-- SnapShotter.TryToUpdateCommittedIndex at the end of a batch -/
+def bumpSc (x : Node) (i : Nat) (upd : Bool) : Node :=
+  if upd && x.flag && x.sc ≤ i then { x with sc := i } else x
+
+def doApply (s : State) (n : Nat) (fail : Bool) (upd : Bool) : Option State :=
+  match s.nodes[n]? with
+  | some x =>
+    if x.up && x.applied < x.pub then
+      match entAt s.clog (x.applied + 1) with
+      | some e =>
+        let r := applyEnt s.bounds { x with applied := x.applied + 1 } e n (x.applied + 1) fail
+        some { setNode s n (bumpSc r.node (x.applied + 1) upd) with
+               acked := s.acked ++ r.ack.toList,
+               ghostApplied := if r.applied then s.ghostApplied ++ [(n, x.applied + 1)] else s.ghostApplied }
       | none => none
-    | none => none
-  | .truncPropose forced ms =>
-    match s.leader with
-    | some l =>
-      match s.nodes[l]? with
-      | some lx =>
-        let allAlive := s.alive.all id
-        -- the progress the leader has: one value per member, never above what the member holds
-        let msOK := ms.length == s.nodes.length && (ms.map (·.1)) == List.range s.nodes.length &&
-          ms.all (fun p => match s.nodes[p.1]? with | some x => p.2 ≤ x.last && (p.1 != l || p.2 == lx.last) | none => false)
-        if lx.up && lx.snapIdx ≠ 0 && msOK && (forced != allAlive) then
-          let used := if forced then ms.filter (fun p => s.alive.getD p.1 false) else ms
-          let x := genIndex (fileOf (lx.segs s.bounds)) maxU64 lx.snapIdx (minMatchOf used)
-          some { s with inflight := s.inflight ++ [{ cmd := .clear x, size := 20, prop := l }] }
-        else none
-      | none => none
-    | none => none
-  | .truncBySize n =>
-    match s.nodes[n]? with
-    | some x =>
-      if x.up && x.snapIdx ≠ 0 then some (setNode s n { x with first := delBefore x s.bounds x.snapIdx }) else none
-    | none => none
-  | .kill n =>
-    match s.nodes[n]? with
-    | some x =>
-      if x.up then
-        let s := if s.leader = some n then { s with leader := none } else s
-        some (setNode s n { x with up := false, imm := [], mem := [], pending := [], hasSnp := false, flag := true })
-      else none
-    | none => none
-  | .restart n =>
-    match s.nodes[n]? with
-    | some x =>
-      if !x.up then
-        -- raftlog.Init: deleteBefore(FirstIndexWithSnap() - 1)
-        let x := { x with first := if x.snapIdx > 0 then delBefore x s.bounds x.snapIdx else x.first }
-        -- InitAndStartNode: appliedIndex = HardState.Commit, CommittedIndex = snapshot index, replay
-        let (lo, hi) := replayRange x.snapIdx x.hsCommit
-        let replayed := if lo < x.first || hi > x.last + 1 then []   -- ErrCompacted / ErrUnavailable: logged, nothing replayed
-          else (idxRange lo hi).filter (fun i => isWrite s.clog i && !inHole x.holes i)
-        some (setNode s n { x with up := true, life := x.life + 1, pub := x.hsCommit, applied := x.hsCommit, sc := x.snapIdx,
-                                   flag := true, hasSnp := false, pending := [], nextSeq := 0, imm := [], mem := replayed })
-      else none
-    | none => none
-  | .raftLead l =>
-    match s.nodes[l]? with
-    | some x =>
-      let upCnt := (s.nodes.filter (·.up)).length
-      if x.up && x.last == s.clog.length && 2 * upCnt > s.nodes.length then
-        some { s with leader := some l, inflight := s.inflight ++ [{ cmd := .noop, prop := l }] }
-      else none
-    | none => none
-  | .metaDown n => if n < s.alive.length then some { s with alive := s.alive.set n false } else none
-  | .metaUp n => if n < s.alive.length then some { s with alive := s.alive.set n true } else none
-  | .elect =>
-    -- cluster_manager.processReplication / electRgMaster: the first Slave peer whose pt is Online
-    if s.alive.getD s.master false then none
-    else
-      match s.peers.find? (fun p => s.alive.getD p false) with
-      | some p => some { s with master := p, peers := s.peers.map (fun q => if q = p then s.master else q) }
-      | none => none
-  | .setMaster m =>
-    -- Data.GetNewRg: any peer, no liveness check
-    if m ≠ s.master && s.peers.contains m then
-      some { s with master := m, peers := s.master :: s.peers.filter (· ≠ m) }
     else none
+  | none => none
+
+/-- tsstoreImpl.writeSnapshot up to the table switch (and, in the code as it was, the signal) -/
+def flushBeginNode (clog : List Ent) (x : Node) (sh : Nat) : Node :=
+  let moved := x.mem.filter (fun i => shardOf clog i == sh)
+  let x := { x with imm := x.imm ++ [(sh, x.hasSnp, moved)], mem := x.mem.filter (fun i => shardOf clog i != sh), gI := x.applied }
+  -- `if s.SnapShotter != nil { RaftFlag = 0 }`
+  let x := if x.hasSnp then { x with flag := false } else x
+  -- code as it was: signal (and flag back to 1) right after the table switch
+  if x.hasSnp && !snapSignalAfterCommit then { x with snapIdx := snapTo x x.sc, flag := true } else x
+
+def doFlushBegin (s : State) (n : Nat) (sh : Nat) : Option State :=
+  match s.nodes[n]? with
+  | some x =>
+    if x.up && !(x.imm.any (·.1 == sh)) then some (setNode s n (flushBeginNode s.clog x sh)) else none
+  | none => none
+
+/-- commitSnapshot (files durable), then the signal through the SnapShotter seen at the start -/
+def flushEndNode (x : Node) (sh : Nat) (t : Nat × Bool × List Nat) : Node :=
+  let x := { x with files := x.files ++ t.2.2, imm := x.imm.filter (·.1 != sh), gF := x.gI }
+  let sig := if snpCapturedOnce then t.2.1 else x.hasSnp
+  if sig && snapSignalAfterCommit then { x with snapIdx := snapTo x x.sc, flag := true } else x
+
+def doFlushEnd (s : State) (n : Nat) (sh : Nat) : Option State :=
+  match s.nodes[n]? with
+  | some x =>
+    match x.imm.find? (·.1 == sh) with
+    | some t => if x.up then some (setNode s n (flushEndNode x sh t)) else none
+    | none => none
+  | none => none
+
+/-- the progress the leader has: one value per member, never above what the member holds (its
+own: exactly its last index) -/
+def msOK (s : State) (l : Nat) (lx : Node) (ms : List (Nat × Nat)) : Bool :=
+  ms.length == s.nodes.length && (ms.map (·.1)) == List.range s.nodes.length &&
+  ms.all (fun p => match s.nodes[p.1]? with | some x => p.2 ≤ x.last && (p.1 != l || p.2 == lx.last) | none => false)
+
+/-- deleteEntryLog on the leader: with every member alive the minimum Match of all of them
+(prepareDeleteEntryLogProposeData); otherwise, once the tolerate time is over (`forced`), the
+minimum over the active ones (forceDeleteEntryLog); then genProposeData -/
+def doTruncPropose (s : State) (forced : Bool) (ms : List (Nat × Nat)) : Option State :=
+  match s.leader with
+  | some l =>
+    match s.nodes[l]? with
+    | some lx =>
+      if lx.up && lx.snapIdx ≠ 0 && msOK s l lx ms && (forced != s.alive.all id) then
+        let used := if forced then ms.filter (fun p => s.alive.getD p.1 false) else ms
+        let x := genIndex (fileOf (lx.segs s.bounds)) maxU64 lx.snapIdx (minMatchOf used)
+        some { s with inflight := s.inflight ++ [{ cmd := .clear x, size := 20, prop := l }] }
+      else none
+    | none => none
+  | none => none
+
+def doTruncBySize (s : State) (n : Nat) : Option State :=
+  match s.nodes[n]? with
+  | some x =>
+    if x.up && x.snapIdx ≠ 0 then some (setNode s n { x with first := delBefore x s.bounds x.snapIdx }) else none
+  | none => none
+
+def killNode (x : Node) : Node :=
+  { x with up := false, imm := [], mem := [], pending := [], hasSnp := false, flag := true }
+
+def doKill (s : State) (n : Nat) : Option State :=
+  match s.nodes[n]? with
+  | some x =>
+    if x.up then
+      let s := if s.leader = some n then { s with leader := none } else s
+      some (setNode s n (killNode x))
+    else none
+  | none => none
+
+/-- raftlog.Init (deleteBefore(FirstIndexWithSnap() - 1)), then InitAndStartNode: appliedIndex =
+HardState.Commit, CommittedIndex = snapshot index, replay of [lo, hi) through the apply path -/
+def restartNode (clog : List Ent) (bounds : List Nat) (x : Node) : Node :=
+  let x := { x with first := if x.snapIdx > 0 then delBefore x bounds x.snapIdx else x.first }
+  let r := replayRange x.snapIdx x.hsCommit
+  let replayed := if r.1 < x.first || r.2 > x.last + 1 then []   -- ErrCompacted / ErrUnavailable: logged, nothing replayed
+    else (idxRange r.1 r.2).filter (fun i => isWrite clog i && !inHole x.holes i)
+  { x with up := true, life := x.life + 1, pub := x.hsCommit, applied := x.hsCommit, sc := x.snapIdx,
+           flag := true, hasSnp := false, pending := [], nextSeq := 0, imm := [], mem := replayed }
+
+def doRestart (s : State) (n : Nat) : Option State :=
+  match s.nodes[n]? with
+  | some x => if !x.up then some (setNode s n (restartNode s.clog s.bounds x)) else none
+  | none => none
+
+def doRaftLead (s : State) (l : Nat) : Option State :=
+  match s.nodes[l]? with
+  | some x =>
+    let upCnt := (s.nodes.filter (·.up)).length
+    if x.up && x.last == s.clog.length && 2 * upCnt > s.nodes.length then
+      some { s with leader := some l, inflight := s.inflight ++ [{ cmd := .noop, prop := l }] }
+    else none
+  | none => none
+
+def doMetaDown (s : State) (n : Nat) : Option State :=
+  if n < s.alive.length then some { s with alive := s.alive.set n false } else none
+
+def doMetaUp (s : State) (n : Nat) : Option State :=
+  if n < s.alive.length then some { s with alive := s.alive.set n true } else none
+
+def doElect (s : State)  : Option State :=
+  -- cluster_manager.processReplication / electRgMaster: the first Slave peer whose pt is Online
+  if s.alive.getD s.master false then none
+  else
+    match s.peers.find? (fun p => s.alive.getD p false) with
+    | some p => some { s with master := p, peers := s.peers.map (fun q => if q = p then s.master else q) }
+    | none => none
+
+def doSetMaster (s : State) (m : Nat) : Option State :=
+  -- Data.GetNewRg: any peer, no liveness check
+  if m ≠ s.master && s.peers.contains m then
+    some { s with master := m, peers := s.master :: s.peers.filter (· ≠ m) }
+  else none
+
+def step (s : State) : Op → Option State
+  | .propose p c size => doPropose s p c size
+  | .giveUp p seq => doGiveUp s p seq
+  | .commit j q => doCommit s j q
+  | .sync n => doSync s n
+  | .publish n => doPublish s n
+  | .apply n fail upd => doApply s n fail upd
+  | .flushBegin n sh => doFlushBegin s n sh
+  | .flushEnd n sh => doFlushEnd s n sh
+  | .truncPropose forced ms => doTruncPropose s forced ms
+  | .truncBySize n => doTruncBySize s n
+  | .kill n => doKill s n
+  | .restart n => doRestart s n
+  | .raftLead l => doRaftLead s l
+  | .metaDown n => doMetaDown s n
+  | .metaUp n => doMetaUp s n
+  | .elect => doElect s
+  | .setMaster m => doSetMaster s m
+
+/-- the conf-change entries of the bootstrap, one per size -/
+def bootLog (s : State) : List Nat → State
+  | [] => s
+  | sz :: rest =>
+    bootLog { advanceFiles s (s.clog.length + 1) sz with clog := s.clog ++ [{ cmd := .noop, size := sz }] } rest
 
 /-- the state after the bootstrap of `n` nodes: every node holds the n conf-change entries (sizes
 `szs`), committed and applied -/
 def boot (n : Nat) (szs : List Nat) : State :=
-  let s0 : State := { nodes := [], alive := List.replicate n true, master := 0, peers := (List.range n).drop 1 }
-  let s := (List.range n).foldl (fun (s : State) i =>
-    let s := advanceFiles s (i + 1) (szs.getD i 0)
-    { s with clog := s.clog ++ [{ cmd := .noop, size := szs.getD i 0 }] }) s0
+  let s := bootLog { nodes := [], alive := List.replicate n true, master := 0, peers := (List.range n).drop 1 }
+    ((List.range n).map (fun i => szs.getD i 0))
   { s with nodes := List.replicate n { last := n, hsCommit := n, pub := n, applied := n } }
 
 def run (s : State) : List Op → Option State
